@@ -586,6 +586,48 @@ func TestVerif_C17_quote(t *testing.T) {
 		nontriv := strings.Trim(v, "abcdefghijklmnopqrstuvwxyzABCDEFGHIJKLMNOPQRSTUVWXYZ0123456789._-") != ""
 		s.Case("c17quote "+verifh.Hex(v), impl, ok, class, nontriv, fmt.Sprintf("filename=%q header=%q -> %q err=%v", v, hdr.Get("Content-Disposition"), params["filename"], err))
 	}
+	// non-ASCII names as TEXT: 1..6 code points drawn from the two-, three- and four-byte ranges of
+	// UTF-8 (their first and last members included), optionally around an ASCII letter, a quote or a
+	// backslash; the same name as file name, file-parameter name and field name. The name must be on
+	// the wire byte for byte (model: utf8Enc + quote; quote_identity_on_utf8) and arrive exactly.
+	edges := []rune{0x80, 0x7ff, 0x800, 0xd7ff, 0xe000, 0xfffd, 0xffff, 0x10000, 0x10ffff, 0xe9, 0x540d, 0x1f642}
+	m := verifh.N(600, 20000)
+	for i := 0; i < m; i++ {
+		var cps []rune
+		k := 1 + r.Intn(6)
+		for j := 0; j < k; j++ {
+			switch r.Intn(5) {
+			case 0:
+				cps = append(cps, edges[(i+j)%len(edges)])
+			case 1:
+				cps = append(cps, rune(0x80+r.Intn(0x800-0x80)))
+			case 2:
+				cps = append(cps, rune(0x800+r.Intn(0xd800-0x800)))
+			case 3:
+				cps = append(cps, rune(0xe000+r.Intn(0x10000-0xe000)))
+			default:
+				cps = append(cps, rune(0x10000+r.Intn(0x110000-0x10000)))
+			}
+		}
+		ints := make([]int, len(cps))
+		for j, cp := range cps {
+			ints[j] = int(cp)
+		}
+		v := string(cps)
+		f := &FileUpload{ParamName: v, FileName: v}
+		hdr := createMultipartHeader(f, "")
+		cd := hdr.Get("Content-Disposition")
+		_, params, err := mime.ParseMediaType(cd)
+		// the quoted form as it stands in the header
+		onWire := ""
+		if a := strings.Index(cd, `filename="`); a >= 0 && strings.HasSuffix(cd, `"`) {
+			onWire = cd[a+len(`filename="`) : len(cd)-1]
+		}
+		ok := err == nil && params["filename"] == v && params["name"] == v && onWire == v
+		s.Count(fmt.Sprintf("utf8-%d-code-points", k))
+		s.Case("c17utf8 "+verifh.IntList(ints), verifh.Hex(v)+" "+verifh.Hex(onWire), ok, "", true,
+			fmt.Sprintf("name %q (%d code points, %d bytes) header=%q -> filename=%q name=%q err=%v", v, k, len(v), cd, params["filename"], params["name"], err))
+	}
 	s.Finish()
 }
 
